@@ -76,6 +76,7 @@ func (c *contentValidator) ValidateOwnershipChange(ch *aclrecordproto.AclOwnersh
 	newOwnerStatus := c.aclState.accountStates[mapKeyFromPubKey(identity)]
 	if newOwnerStatus.Status != StatusActive ||
 		newOwnerPerms.IsOwner() ||
+		newOwnerPerms.IsGuest() || // a guest can't be upgraded to another permission
 		oldOwnerPerms.IsOwner() ||
 		oldOwnerPerms.NoPermissions() {
 		return ErrInsufficientPermissions
